@@ -1673,7 +1673,7 @@ CMR_ERROR CMRspTestBinary(CMR* cmr, CMR_CHRMAT* matrix, bool* pisSeriesParallel,
     &localNumReductions, preducedSubmatrix, pviolatorSubmatrix, NULL, stats, timeLimit) );
 
   if (pisSeriesParallel)
-    *pisSeriesParallel = (*pnumReductions == matrix->numRows + matrix->numColumns);
+    *pisSeriesParallel = (localNumReductions == matrix->numRows + matrix->numColumns);
   if (reductions)
     *pnumReductions = localNumReductions;
   else
